@@ -28,7 +28,7 @@ type c07Case struct {
 	Param  int    `json:"param"`
 }
 
-var c07Behaviours = []string{"no-cert-msg", "empty", "trusted", "untrusted", "expired", "wrong-eku", "enc-untrusted", "enc-expired", "cv-omitted", "cv-otherkey", "cv-othertranscript", "cv-corrupt", "cv-second-cert-key", "cv-encleaf-second-cert-key"}
+var c07Behaviours = []string{"no-cert-msg", "empty", "trusted", "untrusted", "expired", "wrong-eku", "enc-untrusted", "enc-expired", "enc-wrong-eku", "sig-wrong-eku", "cv-omitted", "cv-otherkey", "cv-othertranscript", "cv-corrupt", "cv-second-cert-key", "cv-encleaf-second-cert-key"}
 
 // c07Allows: the documented meaning of the six ClientAuthType constants, plus the standard's rule
 // that the ECDHE key exchange needs both client certificates.
@@ -47,6 +47,15 @@ func c07Allows(policy ClientAuthType, ecdhe bool, beh string) (complete bool, ve
 	switch beh {
 	case "untrusted", "expired":
 		if verifies {
+			return false, false
+		}
+	case "sig-wrong-eku":
+		// only the signing certificate (the client's identity) has the wrong extended key usage
+		if verifies && policy != RequireAndVerifyAnyKeyUsageClientCert {
+			return false, false
+		}
+	case "enc-wrong-eku":
+		if verifies && ecdhe && policy != RequireAndVerifyAnyKeyUsageClientCert {
 			return false, false
 		}
 	case "enc-untrusted", "enc-expired":
@@ -98,6 +107,10 @@ func c07Run(c c07Case) (sig, msg string) {
 		encC = p.CliEncB
 	case "enc-expired":
 		encC = p.CliEncExpired
+	case "enc-wrong-eku":
+		encC = p.CliEncCodeSign
+	case "sig-wrong-eku":
+		sigC = p.CliSigCodeSign
 	case "cv-second-cert-key":
 		// somebody else's signing certificate followed by the attacker's own certificate
 		encC = c07Attacker()
